@@ -63,7 +63,7 @@ def contention_case(draw):
     best single pair is often not part of the optimal assignment (greedy != optimal)."""
     n = draw(st.integers(2, 5))
     m = draw(st.integers(2, 5))
-    kind = draw(st.sampled_from(["TimeInterval", "BoundingBox", "mixed", "time_mixed"]))
+    kind = draw(st.sampled_from(["TimeInterval", "BoundingBox", "mixed", "time_mixed", "near_tie"]))
     ts = draw(st.sampled_from([2.0**-3, 1.0, 8.0]))
     fs = draw(st.sampled_from([128.0, 8192.0]))
 
@@ -86,6 +86,14 @@ def contention_case(draw):
             c = [[ts * a, fs * 1.0], [ts * (a + ln), fs * 2.0]]
         return {"type": k, "coordinates": c, "meta": {}}
 
+    if kind == "near_tie":
+        # all geometries overlap each other and two complete pairings have totals that differ by 1e-8 .. 1e-6 (not exactly tied):
+        # intervals on the grid whose ends are moved by a few tenths of a microsecond
+        n = m = draw(st.integers(2, 3))
+        eps = lambda: ts * draw(st.integers(-40, 40)) * 1e-7  # noqa: E731
+        src = [{"type": "TimeInterval", "coordinates": [ts * 2.0 * i, ts * (2.0 * i + 1.0)], "meta": {}} for i in range(n)]
+        tgt = [{"type": "TimeInterval", "coordinates": [max(0.0, ts * 0.5 + eps()), ts * (2.0 * (n - 1) + 0.5) + eps()], "meta": {}} for _ in range(m)]
+        return {"pool": src + tgt, "src": list(range(n)), "tgt": list(range(n, n + m)), "tb": ts / 8, "fb": fs / 8}
     pool = [one() for _ in range(n + m)]
     return {"pool": pool, "src": list(range(n)), "tgt": list(range(n, n + m)), "tb": ts / 8, "fb": fs / 8}
 
